@@ -76,6 +76,16 @@ CHECKS: dict[str, dict] = {
         technique="TLA+ model checked by TLC + every state replayed into the code + TLC trace acceptance",
         ref="5-C07",
     ),
+    "C16": dict(
+        engine="spec/Lexing.tla, spec/LexTrace.tla",
+        text="Lexing.tla models the offset->(line, column) loop of lex and the filter rules; TLC checks the property's clauses in every loop state over every "
+             "text up to N characters over {newline, blank, other} and every tokenisation step; a witness tokenisation for every loop state is replayed through "
+             "the real lex() with a stub lexer; the real Pygments lexers of the 7 languages are run on the vendored corpus and on synthetic texts (tabs, CRLF, "
+             "non-ASCII, multi-line tokens, missing trailing newline) and every returned token is judged by TLC (LexTrace.tla) against facts read off the raw text.",
+        note="Whitespace token = type Text/Whitespace with empty or all-whitespace text; Pygments offsets assumed non-decreasing (checked per input). " + BASE_NOTE,
+        technique="TLA+ model checked by TLC + spec->code replay through a stub lexer + TLC trace acceptance of real lexer runs",
+        ref="5-C16",
+    ),
 }
 
 NOT_YET = "check not built yet in this round (see DESIGN.md section 10 for the order of work)"
